@@ -264,3 +264,24 @@ impl Rt for L154 {
         "frame_type {Data, MacCommand, Beacon, Multipurpose} x version {2006, 2015, 2003} x dst mode {absent, short, extended} x src mode (same) x PAN-ID compression, restricted to the combinations the standard defines, PAN-ID presence derived from the standard's tables (as the parser does) x frame_pending/ack_request x sequence number {0,255,1} x 2 address/PAN value sets (incl. broadcast short address and broadcast PAN); security_enabled = false only (Repr cannot carry the auxiliary security header)"
     }
 }
+
+/// Values outside the enumerated domain (see `super::probe`).
+pub fn observations() -> Vec<serde_json::Value> {
+    let r = Ieee802154Repr {
+        frame_type: Ieee802154FrameType::Data,
+        security_enabled: true,
+        frame_pending: false,
+        ack_request: false,
+        sequence_number: Some(1),
+        pan_id_compression: true,
+        frame_version: Ieee802154FrameVersion::Ieee802154_2006,
+        dst_pan_id: Some(PANS[0]),
+        dst_addr: Some(addr_of(1, 0)),
+        src_pan_id: None,
+        src_addr: Some(addr_of(2, 0)),
+    };
+    vec![
+        super::probe::<L154>(&r, &()),
+        super::probe::<Eth>(&EthernetRepr { src_addr: macs()[0], dst_addr: macs()[1], ethertype: EthernetProtocol::Unknown(0x0800) }, &()),
+    ]
+}
